@@ -19,13 +19,16 @@ package fsm
 //@   ensures env-flag-reset: result == nil ==> forall k *container.Container :: k in containers ==> !k.ValueSetFromEnv
 //@   ensures env-flag-frame: forall k *container.Container :: !(k in containers) ==> k.ValueSetFromEnv == old(k.ValueSetFromEnv)
 //@   ensures trace-grows: len(trace) >= len(old(trace))
+//@   ensures value-events-only: forall i int :: {trace[i]} len(old(trace)) <= i && i < len(trace) ==> trace[i].kind == 5 || trace[i].kind == 6
 //@   ensures no-failed-set: result == nil ==> (forall i int :: len(old(trace)) <= i && i < len(trace) && trace[i].kind == 5 ==> trace[i].b == 1)
 //@   ensures error-is-a-set-failure: result != nil ==> len(trace) > len(old(trace)) && trace[len(trace)-1].kind == 5 && trace[len(trace)-1].b == 0
 //@   loop 1 invariant trace-grows: len(trace) >= len(old(trace))
+//@   loop 1 invariant value-events-only: forall i int :: {trace[i]} len(old(trace)) <= i && i < len(trace) ==> trace[i].kind == 5 || trace[i].kind == 6
 //@   loop 1 invariant no-failed-set: forall i int :: len(old(trace)) <= i && i < len(trace) && trace[i].kind == 5 ==> trace[i].b == 1
 //@   loop 1 step protocol: trace == (startTrace(1) ++ clearEvs(con.Value)) ++ setEvs(con.Value, vs, len(vs))
 //@   loop 2 invariant protocol: trace == (startTrace(1) ++ clearEvs(con.Value)) ++ setEvs(con.Value, vs, $k)
 //@   loop 2 invariant trace-grows: len(trace) >= len(old(trace))
+//@   loop 2 invariant value-events-only: forall i int :: {trace[i]} len(old(trace)) <= i && i < len(trace) ==> trace[i].kind == 5 || trace[i].kind == 6
 //@   loop 2 invariant no-failed-set: forall i int :: len(old(trace)) <= i && i < len(trace) && trace[i].kind == 5 ==> trace[i].b == 1
 //@   loop 1 invariant done: forall k *container.Container :: iterdone(k) ==> !k.ValueSetFromEnv && (k.ValueSetByUser != nil ==> deref(k.ValueSetByUser))
 //@   loop 1 invariant sub: forall k *container.Container :: iterdone(k) ==> (k in containers)
@@ -92,6 +95,7 @@ package fsm
 //@   logged
 //@   requires graph: graphWF() && containersWF() && s != nil
 //@   requires a-cb-disjoint: forall k *container.Container, j *container.Container :: k.ValueSetByUser == nil || k.ValueSetByUser != ival(j.Value)
+//@   ensures value-events-only: len(trace) >= len(old(trace)) && (forall i int :: {trace[i]} len(old(trace)) <= i && i < len(trace) ==> trace[i].kind == 5 || trace[i].kind == 6)
 //@   ensures rejected: !accepts(s, args, false) ==> result != nil
 //@   ensures nil-only-if-accepted: result == nil ==> accepts(s, args, false)
 
